@@ -15,6 +15,7 @@ import Model.Proto.Surveyor
 import Model.Proto.Req
 import Model.Core
 import Model.Handshaker
+import Model.AcceptQ
 import Model.Ledger
 import Model.Bytes
 import Generated.Facts
@@ -92,6 +93,21 @@ def hsStep (s : Handshaker.State) (op : List String) : List (Handshaker.State ×
     let r := Handshaker.step s o
     [(r.1, if r.2.isEmpty then "-" else " ".intercalate r.2)]
 
+/-- the WebSocket listener's accept queue behind the line protocol -/
+def wslStep (s : AcceptQ.State) (op : List String) : List (AcceptQ.State × String) :=
+  let nat (x : String) : Nat := x.toNat?.getD 0
+  let o : Option AcceptQ.Op := match op with
+    | ["begin", c] => some (.begin (nat c))
+    | ["finish", c] => some (.finish (nat c))
+    | ["accept", call] => some (.accept (nat call))
+    | ["close"] => some .close
+    | _ => none
+  match o with
+  | none => []
+  | some o =>
+    let r := AcceptQ.step s o
+    [(r.1, if r.2.isEmpty then "-" else " ".intercalate r.2)]
+
 instance : BEq Ledger.State := ⟨fun a b => a.msgs == b.msgs && a.next == b.next && a.bad == b.bad⟩
 
 structure State where
@@ -107,6 +123,7 @@ structure State where
   req : List Req.State := [Req.init]
   core : List Core.State := [Core.init]
   hs : List Handshaker.State := [Handshaker.init]
+  wsl : List AcceptQ.State := [AcceptQ.init]
   stuck : Bool := false      -- after a disagreement the scenario is abandoned until the next `new`
 
 /-- returns (new state, agrees?, expected rendering, branch) or none for an unknown tag -/
@@ -124,6 +141,7 @@ def step (s : State) (tag : String) (args : List String) (o : String) : Option (
     | "m.core" => some ({ s with core := [Core.init], stuck := false }, true, "-", "new")
     | "m.ledger" => some ({ s with ledger := [{}], stuck := false }, true, "-", "new")
     | "m.hs" => some ({ s with hs := [Handshaker.init], stuck := false }, true, "-", "new")
+    | "m.wsl" => some ({ s with wsl := [AcceptQ.init], stuck := false }, true, "-", "new")
     | "m.mesh" =>
       let f := match args.getD 1 "" with
         | "bus" => Mesh.Flavor.bus
@@ -171,6 +189,9 @@ def step (s : State) (tag : String) (args : List String) (o : String) : Option (
   | "m.ledger" =>
     let (cs, exp) := advanceS s.ledger ledgerStep args o
     if cs.isEmpty then some ({ s with stuck := true }, false, exp, opName) else some ({ s with ledger := cs }, true, o, opName)
+  | "m.wsl" =>
+    let (cs, exp) := advanceS s.wsl wslStep args o
+    if cs.isEmpty then some ({ s with stuck := true }, false, exp, opName) else some ({ s with wsl := cs }, true, o, opName)
   | "m.hs" =>
     let (cs, exp) := advanceS s.hs hsStep args o
     if cs.isEmpty then some ({ s with stuck := true }, false, exp, opName) else some ({ s with hs := cs }, true, o, opName)
